@@ -267,6 +267,7 @@ func c10CoreCalls(c *mc.Ctx, mtu int, disableStapA, avc bool, calls [][][]byte, 
 	// depacketizer
 	d := &codecs.H264Packet{IsAVC: avc}
 	var outAll []byte
+	var held, heldSnap [][]byte
 	for i, pl := range payloads {
 		if decoyD != nil {
 			_, _ = decoyD.Unmarshal([]byte{0x7C, 0x85, 0xD1, 0xD2, 0xD3}) // start of a unit that never ends
@@ -277,6 +278,14 @@ func c10CoreCalls(c *mc.Ctx, mtu int, disableStapA, avc bool, calls [][][]byte, 
 			c.Failf("depacketizer-rejects", "%s: H264Packet.Unmarshal(payload %d = %s): %v", desc(), i, hx(pl), err)
 		}
 		outAll = append(outAll, o...)
+		// the caller keeps what it was handed: a later call (on this or another instance) must
+		// not change it (the inputs are not touched here)
+		held, heldSnap = append(held, o), append(heldSnap, clone(o))
+		for k := range held {
+			if !bytes.Equal(held[k], heldSnap[k]) {
+				c.Failf("earlier-result-changed", "%s: the bytes returned for payload %d (%s) read %s after payload %d was decoded", desc(), k, hx(heldSnap[k]), hx(held[k]), i)
+			}
+		}
 	}
 	if want := ref.H264Frame(expected, avc); !bytes.Equal(outAll, want) {
 		c.Failf("depacketized-differs", "%s: H264Packet output %s, want %s; payloads %s", desc(), hx(outAll), hx(want), hxs(payloads))
